@@ -500,8 +500,11 @@ pub fn run(ctx: &mut Ctx) {
                 ctx.eval();
                 ctx.count("R11");
                 ctx.shape(&("R11", cut.min(5), out.class()));
-                if !out.is_incomplete() {
-                    ctx.violation(format!("c04:must-reject:R11:{}", if out.is_ok() { "accepted" } else { "not-incomplete" }), json!({"cut": cut, "outcome": out.show(), "input_hex": hex_short(input)}));
+                // the property requires "no value"; whether that is Incomplete or an error is not stated
+                if out.is_ok() {
+                    ctx.violation("c04:must-reject:R11:accepted".into(), json!({"cut": cut, "outcome": out.show(), "input_hex": hex_short(input)}));
+                } else if !out.is_incomplete() {
+                    ctx.unjudged("R11:truncated-message-answered-with-error-instead-of-Incomplete");
                 }
             }
         }
